@@ -6,6 +6,14 @@
 From Coq Require Import String.
 From FA Require Import model.Base model.Varint model.Value model.Schema model.Float model.Utf8
                        model.Codec model.Validate model.Read model.Resolve.
+Open Scope Z_scope.
+
+(* `for schema in r_schema: if match_types(w, schema): return schema` *)
+Fixpoint first_branch_old (mt : schema -> rres bool) (bs : list schema) : rres schema :=
+  match bs with
+  | [] => RErrResolution
+  | b :: bs => let+ x := mt b in if x then ROk b else first_branch_old mt bs
+  end.
 
 Section MatchNames.
   Variables we re : env.
@@ -45,7 +53,7 @@ with match_schemas_old (f : nat) (we re : env) (w r : schema) {struct f} : rres 
   | S f =>
       if is_list w then ROk r          (* writer union: checked in read_union once the branch is known *)
       else match r with
-      | SUnion bs => first_branch (match_types_old f we re w) bs
+      | SUnion bs => first_branch_old (match_types_old f we re w) bs
       | _ =>
         let wt := tag_of w in
         let rt := tag_of r in
@@ -136,7 +144,7 @@ Definition union_reader_old (we re : env) (wb : schema) (R : option schema) : rr
   match truthy R with
   | None => ROk (None, None)
   | Some (SUnion rbs) =>
-      let+ b := first_branch (match_types_top_old we re wb) rbs in ROk (Some b, Some b)
+      let+ b := first_branch_old (match_types_top_old we re wb) rbs in ROk (Some b, Some b)
   | Some r =>
       let+ x := match_types_top_old we re wb r in
       if x then ROk (Some r, None) else RErrResolution
